@@ -51,6 +51,8 @@ Definition wf_val (f : pfield) (v : pval) : Prop :=
   | P_mnem _ bits, V_int n => n < 2 ^ bits
   | P_algnum, V_int n => n < 256
   | P_type, V_int t => t < 65536 /\ t <> 0 /\ t <> 65535
+  | P_eui k, V_int n => eui_ok k n
+  | P_nodeid _, V_int n => n < 18446744073709551616
   (* the clock reads 1970 or later *)
   | P_time, V_time now t => (0 <= now)%Z /\ t < 4294967296
   | _, _ => False
@@ -79,6 +81,8 @@ Definition field_items (f : pfield) (v : pval) : list item :=
   | P_algnum, V_int n => [IWord (dec_bytes n)]
   | P_type, V_int t => [IWord (show_type t)]
   | P_time, V_time now t => [IWord (time_to_string now t)]
+  | P_eui k, V_int n => [IWord (eui_to_string k n)]
+  | P_nodeid up, V_int n => [IWord (nodeid_to_string up n)]
   | _, _ => []
   end.
 
@@ -244,6 +248,8 @@ Proof.
   - now rewrite show_mnem_word_ok.
   - now rewrite dec_word_ok.
   - now rewrite show_type_word_ok.
+  - destruct (eui_roundtrip k n H) as [-> _]. reflexivity.
+  - destruct (nodeid_roundtrip up n H) as [-> _]. reflexivity.
   - destruct H as [Hn Ht]. rewrite time_to_string_now by assumption. rewrite format_time_word_ok; [reflexivity|lia].
 Qed.
 
@@ -306,6 +312,8 @@ Proof.
   - (* P_type *) destruct H as (Ht & H0 & H1). pose proof (read_type_show n Ht H0 H1) as R. unfold read_type in R.
     destruct (string_to_type (upper_bytes (show_type n))); [now injection R as ->|].
     destruct (has_prefix b_TYPE (upper_bytes (show_type n))); [now rewrite R|discriminate].
+  - (* P_eui *) destruct (eui_roundtrip k n H) as [_ ->]. reflexivity.
+  - (* P_nodeid *) destruct (nodeid_roundtrip up n H) as [_ ->]. reflexivity.
   - (* P_time *) destruct H as [Hn Ht]. rewrite time_to_string_now by assumption.
     rewrite string_to_time_format by lia. cbn [bind]. now rewrite N2Z.id.
 Qed.
